@@ -226,17 +226,21 @@ class Run:
     # ---------------------------------------------------------------- loop side
     def hook(self, post, callback, args, context):  # runs in the worker thread
         i = self.thread_call.get(threading.get_ident())
-        if i is not None and self.fin_cancel[i] and not self.cancel_issued[i]:
-            self.cancel_issued[i] = True
-            post(self._do_cancel, i)
         if i is None:
             return post(callback, *args, context=context)
         tid = threading.get_ident()
+        fin = self.fin_cancel[i] and not self.cancel_issued[i]
+        if fin:
+            self.cancel_issued[i] = True
 
         def report_and_mark() -> None:
-            # one loop callback: the real `_report_result`, then the harness's note that it ran (two
-            # separate posts would let the loop dispatch the next job to this worker in between)
+            # ONE loop callback: (for `fincancel`: the cancellation of the caller's scope, then) the
+            # real `_report_result`, then the harness's note that it ran.  Separate posts would let
+            # the loop run whole cycles in between (waking the caller, dispatching the next job to
+            # this or to a new worker) and make the history depend on the GIL.
             try:
+                if fin:
+                    self._do_cancel(i)
                 callback(*args)
             finally:
                 self._mark_reported(i, tid)
